@@ -285,7 +285,7 @@ MANIFEST = {
             "source, bad parameters rejected without trace, present key removed with exactly its destructor effects "
             "(AUTOFREE once, FD_AUTOCLOSE once, poll removal iff RUNNING), absent key fails without effect, tasks "
             "cannot be deregistered, pause/resume keep the set, stop empties it, m_mod_src_len equals the set sizes "
-            "with library-internal sources excluded; (c) the same for topic subscriptions incl. in-place update",
+            "with library-internal sources excluded; (c) the same for topic subscriptions incl. in-place update; whole core: a one-shot source is already out of the set inside its own callback (count, key free, re-arm survives), unsubscribing an absent topic with one subscription present removes nothing",
     "note": "poll layer, thread pool, close(), regcomp and m_ctx() are stubs (listed in evidence); identifying values in "
             "the registry unit are per-job constants per order class (arbitrary values are quantified in the contract "
             "unit and composed with C11); path sources: contract unit and non-searching operations only",
